@@ -54,9 +54,9 @@ META["C07"] = {
 }
 META["C08"] = {
     "category": "proof", "design_ref": "DESIGN.md section 6, C08",
-    "technique": "Coq: the integrated set after delivering a merged / permuted / duplicated / re-batched collection of updates equals the one after sequential delivery (characterisation as a least closed set); delete-set union laws; + differential comparison of merge_updates / diff_updates / encode_state_vector_from_update with sequential application on real update pools, v1 and v2",
-    "text": "The algebra is proved at operation-set level; the byte-level k-way merge is compared with sequential application on pools with overlaps, duplicates, gaps, Skip and GC blocks.",
-    "note": "The merge control flow itself is not transcribed (its specification is the model). A stash lag of the merged form is accepted only when it vanishes after delivering the whole history.",
+    "technique": "Coq: (1) the integrated set after delivering a merged / permuted / duplicated / re-batched collection of updates equals the one after sequential delivery (least closed set), delete-set union laws; (2) a statement-by-statement Gallina transcription of Update::merge_updates, proved to terminate on every input and to produce an update with exactly the units and delete ranges of its arguments (arguments that are views of one history), independent of order and nesting; + the extracted transcription run against merge_updates_v1 on every merge of the harness (2..5 and 22..40 arguments) + differential comparison of merge_updates / diff_updates / encode_state_vector_from_update with sequential application on real update pools, v1 and v2",
+    "text": "The algebra is proved at operation-set level and for the k-way merge loop itself; the implementation's merge is compared with the transcription (same bytes) and with sequential application on pools with overlaps, duplicates, gaps, Skip and GC blocks.",
+    "note": "diff_updates and encode_state_vector_from_update are compared on the implementation only. A stash lag of the merged form is accepted only when it vanishes after delivering the whole history. Found by the transcription and repaired: the decoder order was not a total order (fd4802e: merge of more than 20 updates with Item/GC ties panicked).",
 }
 META["C13"] = {
     "category": "proof", "design_ref": "DESIGN.md section 6, C13",
@@ -69,7 +69,7 @@ def _m(cat, ref, tech, text, note): return {"category": cat, "design_ref": ref, 
 META["C09"] = _m("proof", "DESIGN.md section 6, C09",
     "Coq round-trip theorems for the whole lib0 v1 layer and for lib0 v2 updates (the four column codecs and the composed nine-column update; unbounded: every value satisfying an explicit boolean well-formedness predicate) + byte-level correspondence of the Rust codecs with the Coq codecs (v1 and v2) on generated and hand-made payloads with ids over the whole 53-bit / u32 width + implementation round trips in v1 and v2 and Yjs fixtures",
     "Round trips are universally quantified statements: proved for every varint width, strings, nested Any, id sets, state vectors, snapshots, sticky indexes, awareness updates, every sync message, every block / content kind of updates in v1, and in v2 the IntDiffOptRle / UIntOptRle / Rle / string columns and whole updates. The Rust code is tied to the model by decoding the same bytes on both sides and by re-encoding (model bytes = Rust bytes).",
-    "Partial: the v2 forms of state vectors, snapshots, id sets and sticky indexes are covered by implementation round trips only. Repaired on the pinned tree: JSON content (9a4936a), v2 write_buf (976c4ca), Custom message tag (0a868d8), Skip length (e7abf27), v2 clock columns lost differences >= 2^30 (d9039ca, found by the proof), integrate overflowed on clocks >= 2^31 (5fb6db0).")
+    "Partial: the v2 form of attributed id maps is covered by implementation round trips only. Repaired on the pinned tree: JSON content (9a4936a), v2 write_buf (976c4ca), Custom message tag (0a868d8), Skip length (e7abf27), v2 clock columns lost differences >= 2^30 (d9039ca, found by the proof), integrate overflowed on clocks >= 2^31 (5fb6db0), attribute lists of id maps compared in one direction only (7f9cd1e, found by the proof of the IdMap codec).")
 META["C10"] = _m("proof", "DESIGN.md section 6, C10",
     "Coq totality theorems for every v1 decoder and for the lib0 v2 update decoder (for ALL byte strings: no modelled panic, no exhaustion of fuel, bounded nesting, decoded values satisfy the encoder's precondition) + outcome-class correspondence with the Rust decoders (v1 entry points and Update::decode_v2) + isolated worker subprocesses with a counting allocator, small stack and time limit for all 22 entry points",
     "Totality is a claim about all 256^n inputs; the theorems settle it for the modelled decoders, the correspondence shows the Rust decoders fall into the same outcome class on hundreds of thousands of mutated inputs, and the worker runs observe what no model can (aborts, stack, allocation, time).",
